@@ -160,6 +160,7 @@ type Unit struct {
 	scopeBlk   *ssa.BasicBlock
 	bytesCache map[string]Term
 	groundHints []string
+	quants      []*quantAssumption
 	boundNow   map[string]bool
 	retReach []Term
 }
@@ -222,6 +223,7 @@ func sanitizeSym(s string) string {
 }
 
 func (u *Unit) assume(guard, f Term) {
+	u.recordQuant(guard, f)
 	f = implies(guard, f)
 	if f.S == "true" {
 		return
